@@ -163,6 +163,17 @@ func (i *Domain) Distance(
 			alignment = telem.NewAlignment(iter.Position(), uint32(sampleCount(iter.Size())))
 			return
 		}
+		if tr.End == iter.TimeRange().End {
+			// The range ends exactly where this domain ends, so it is fully covered
+			// without needing a following domain.
+			totalTraversed += sampleCount(iter.Size())
+			approx.Approximation = Between(
+				startToFirstEnd.Lower+totalTraversed,
+				startToFirstEnd.Upper+totalTraversed,
+			)
+			alignment = telem.NewAlignment(iter.Position(), uint32(sampleCount(iter.Size())))
+			return
+		}
 		if iter.TimeRange().ContainsStamp(tr.End) {
 			if err = r.Close(); err != nil {
 				return
